@@ -170,17 +170,53 @@ fn frame_with_unassigned_column(c: usize, p: u8, u: u8) -> Vec<u8> {
     crc::frame(&b.into_bytes())
 }
 
+/// MSM1 frame, one satellite, signal mask = `cols` (positions), only the column `p` has a cell
+fn frame_with_columns(c: usize, cols: &[u8], p: u8) -> Vec<u8> {
+    let n = 1071 + 10 * c as u16;
+    let mut sorted: Vec<u8> = cols.to_vec();
+    sorted.sort();
+    sorted.dedup();
+    let mut b = bits::BitBuf::new();
+    b.push(n as u128, 12);
+    b.push(0, 61);
+    b.push(1u128 << (64 - 9), 64);
+    let mut m = 0u128;
+    for &x in &sorted {
+        m |= 1u128 << (32 - x as u32);
+    }
+    b.push(m, 32);
+    for &x in &sorted {
+        b.push_bit(x == p);
+    }
+    b.push(0x2AA, 10);
+    b.push(0x0FED, 15);
+    crc::frame(&b.into_bytes())
+}
+
 /// a position's descriptor must not depend on which other (unused) mask bits are set: the
 /// decoder may reject such a frame (Corrupt) but must not report another descriptor
 fn check_unassigned_columns(ctx: &mut Ctx, c: usize) {
     let cn = sig::CONSTELLATIONS[c];
-    for p in sig::positions(c) {
+    let rec = sig::positions(c);
+    for (pi, &p) in rec.iter().enumerate() {
         for u in 1..=32u8 {
             if sig::pos_to_sig(c, u).is_some() {
                 continue;
             }
+            // variants: {u, p}; {u, p, q} with q the next recognised position; {u, p, q, first}
+            let mut variants: Vec<Vec<u8>> = vec![vec![u, p]];
+            if let Some(&q) = rec.get(pi + 1) {
+                variants.push(vec![u, p, q]);
+            }
+            if pi >= 1 {
+                variants.push(vec![u, p, rec[pi - 1]]);
+            }
+            if rec.len() >= 3 {
+                variants.push(vec![u, p, rec[0], rec[rec.len() - 1]]);
+            }
+            for cols in variants {
             ctx.eval();
-            let f = frame_with_unassigned_column(c, p, u);
+            let f = frame_with_columns(c, &cols, p);
             let m = match guard(|| MessageFrame::new(&f).ok().map(|mf| mf.get_message())) {
                 Ok(Some(m)) => m,
                 _ => continue,
@@ -210,6 +246,7 @@ fn check_unassigned_columns(ctx: &mut Ctx, c: usize) {
                     format!("{}: cell at signal-mask position {} decodes as {:?} (reference {:?}) when the unused, unassigned position {} is also set in the mask", cn, p, found, exp, u),
                     json!({"kind":"unassigned_column","constellation":c,"pos":p,"other":u}),
                 );
+            }
             }
         }
     }
